@@ -32,7 +32,8 @@ for pid in sorted(CLAIMED):
         "engine": "govc",
         "level_claimed": {"category": cat, "text": text, "design_ref": ref},
         "level_note": note,
-        "technique": "contract-based deductive verification: weakest-precondition style VCs generated from go/ssa of the real code, contracts in //@ comment files, discharged by z3/z3-new/cvc5",
+        "technique": "contract-based deductive verification: weakest-precondition style VCs generated from go/ssa of the real code, contracts in //@ comment files, discharged by z3/z3-new/cvc5" + (
+            "; for what no contract reaches (bytes.Buffer / encoding/binary reflection, the DNS library's wire format, the path-dependent negotiation) closed `fact` clauses labelled bounded_ are decided by running the real code over the finite domain written in the clause (go test via overlay, nothing written to /repo): reported as bounded, never assumed by a proof, never counted as proved" if pid in ("C09", "C10", "C11") else ""),
     })
 
 m = {
